@@ -113,6 +113,23 @@ PROPS = {
   'trusted_base': ['hand model of the chunk parsers in coq/Model/Stream.v, tied by differential execution', 'reference chunk writer in harness/src/c16.rs'],
   'assumptions': ['field values within their types (u32/u16/u8); keywords 1..79 bytes without NUL'],
  },
+ 'C01': {
+  'level_text': 'Coq theorems (closed under the global context): the row pipeline of the decoder model (filter byte + reconstruction against the previous reconstructed row, reset per image/pass) equals '
+                'the specification\'s reconstruction for EVERY inflated stream, row count, pixel size and row length, with the same errors for short streams and undefined filter bytes, for both predictor '
+                'selections; the row length is a whole number of filter units for all 15 legal pairs and every width. Composes C14 (per-row filters, regenerated predictors) and C15 (Adam7 placement). Inflate by '
+                'contract; chunk framing by the L0 machine; buffer management (zlib.rs out-buffer compaction, unfiltering_buffer.rs) tied by the correspondence check on every run.',
+  'level_note': 'Trusted: Coq kernel; translator (Paeth predictors, filter-byte decoding, Adam7 tables); hand models of filter.rs loops / adam7.rs / the row loop of mod.rs; fdeflate implements RFC 1950/1951 '
+                '(contract; reference inflater Base/Inflate.v in the correspondence); zlib.rs and unfiltering_buffer.rs buffer management is modelled only as "delivers the inflated bytes in order" and checked by '
+                'differential execution (large images, far back-references, aligned block boundaries).',
+  'gen_items': ['filter_paeth_decode', 'RowFilter::from_u8', 'unfilter_first_row_subst', 'Adam7Iterator::init_pass', 'expand_adam7_bits', 'expand_pass.store', 'zlib.constants'],
+  'model_name': 'Model/Pipeline.v decode_frame (reference inflate -> unfilter_rows -> expand_pass)',
+  'rule': 'cases = images built by the independent reference writer: 15 colour/depth pairs x {plain, Adam7} x widths 1..9 and random to 40 (70) x heights x per-row filter vectors (fixed 0-4, random) x 7 deflate '
+          'producers x 1-6 IDAT splits incl. empty chunks x 4 delivery schedules; all (w,h) <= 9^2 (24^2); images of 0.2-1 MB inflated data; hand-built fixed-Huffman matches at distance 32768 after > 128 KiB; '
+          'stored blocks / IDAT chunks ending on scanline boundaries with Up/Avg/Paeth rows. Decoded through next_frame and compared with the specification reference (pixels + geometry); small ones also '
+          'with the extracted Coq pipeline. distinct = (colour, depth, interlace, w mod 8, h mod 8) etc.',
+  'trusted_base': ['hand models in coq/Model/{Filter,Adam7,Pipeline}.v tied by differential execution', 'reference PNG writer harness/src/pngbuild.rs + c01.rs'],
+  'assumptions': ['default (identity) transformation', 'fdeflate decodes every RFC 1951 stream as the reference does (tested on every generated stream)'],
+ },
 }
 
 NOT_APPLICABLE = {}
